@@ -316,7 +316,7 @@ class C15(Prop):
                 results = []
                 t = threading.Thread(target=thread_main, args=(entry, arg, ns, results), name='prog-%d' % ti)
                 t.start()
-                t.join(20)
+                t.join(240)
                 if t.is_alive():
                     raise HarnessError('program thread did not finish')
                 idents.append(t.ident)
